@@ -188,6 +188,20 @@ def _analyse(t):
         cands = [r for r in dbg.stmts if type(r.node).__name__ in MUTABLE and r.source_start_offset is not None
                  and r.source_end_offset is not None and r.source_start_offset <= pos < r.source_end_offset]
         if not cands:
+            # no statement record's source extract contains this literal: harmless if the literal generates no code
+            # (a DIM bound, a CONST), a wrong source position if changing it changes the code
+            anyrec = [r for r in dbg.stmts if r.source_start_offset is not None and r.source_end_offset is not None
+                      and r.source_start_offset <= pos < r.source_end_offset]
+            if not anyrec:
+                new0 = rng.choice([d for d in '3456789' if d != src[pos]])
+                st0 = real.try_compile(src[:pos] + new0 + src[pos + 1:], o, True)
+                if st0[0] == 'ok':
+                    c2 = real.split_sections(st0[2]).get(4)
+                    c1 = real.split_sections(b).get(4)
+                    line_txt = src[src.rfind('\n', 0, pos) + 1:src.find('\n', pos)]
+                    if c2 is not None and len(c2) == len(c1) and c1 != c2 and not line_txt.lstrip().upper().startswith(('DIM', 'CONST', 'DATA')) \
+                            and len(out['problems']) < 6:
+                        out['problems'].append(('code-changing-literal-is-in-no-statement-record', pos, line_txt[:60]))
             continue
         rec = min(cands, key=lambda r: r.source_end_offset - r.source_start_offset)
         # a block statement can have two records (the collector's own and the one finalize synthesises for the block's
@@ -235,7 +249,11 @@ def run(chk):
                 'x = 1\nIF x THEN\n  x = 2\nEND IF\nDO\nLOOP UNTIL x < 8\n',
                 'x = 1\nIF x THEN\nELSE\nEND IF\nDO\nLOOP UNTIL x < 8\nWHILE x > 6\nWEND\n',
                 'SELECT CASE 5\nCASE 4\nCASE 6 TO 7\nCASE ELSE\nEND SELECT\n',
-                'CALL p\nSUB p\n  DO\n  LOOP UNTIL 3 > q\n  FOR k = 4 TO 3\n  NEXT\nEND SUB\n']:
+                'CALL p\nSUB p\n  DO\n  LOOP UNTIL 3 > q\n  FOR k = 4 TO 3\n  NEXT\nEND SUB\n',
+                # statements written on the ELSEIF / CASE / IF line itself, on a line other than the first
+                'x = 3\ny = 2\nw = 0\nIF x = 1 THEN\n  PRINT 4\nELSEIF y = 2 THEN PRINT 5: z = 8 / (w + 1)\nELSE\n  PRINT 6\nEND IF\n',
+                'x = 3\nSELECT CASE x\nCASE 3: PRINT 7: y = 9\nCASE ELSE: PRINT 4\nEND SELECT\n',
+                'x = 3\nPRINT 1\nIF x = 3 THEN PRINT 5: y = 6 ELSE PRINT 7: y = 8\n']:
         for o in (0, 1, 2):
             tasks.append((src, [], o, 10))
     for k in chk.known:
